@@ -905,6 +905,20 @@ def r33(ctx: Ctx) -> RuleReport:
                         else 'markers of this kind are silently lost')
                 continue
             used = sum(1 for n in walk_local(f2.node) if isinstance(n, ast.Name) and n.id == nm and isinstance(n.ctx, ast.Load))
+            # where the bucket is handed on (append / extend / returned / aliased), the only admissible condition is "the bucket is not empty"
+            from ..resolve import facts_ex as _fx
+            extra = None
+            for n in walk_local(f2.node):
+                if isinstance(n, ast.Call) and isinstance(n.func, ast.Attribute) and n.func.attr in ('append', 'extend', 'insert') and n.args and norm(n.args[-1]) == nm:
+                    conds = [(f, pol) for f, pol in _fx(ctx, f2, n) if not (f == nm and pol) and f not in (f'{nm} is not None', f'{nm} is None', f'len({nm})', f'len({nm}) > 0')]
+                    if conds:
+                        extra = (n, conds)
+            if extra and used:
+                n, conds = extra
+                rep.violation(f'{f2.fq}: bucket {nm} is carried over', f2.loc(n), f'`{norm(n)[:50]}` hands the bucket on only when {[c for c, _ in conds][:2]} '
+                              f'{"holds" if conds[0][1] else "does not hold"}: in the other case the markers of this kind are dropped (a Push that is lost means the nested node is no '
+                              f'longer opened where the text opened it, and indicate_branches misses it)')
+                continue
             rep.add(f'{f2.fq}: bucket {nm} is carried over', f2.loc(), 'ok' if used else 'violation',
                     '' if used else f'`{nm}` is unpacked from _reified_markers but never read afterwards: markers of this kind are silently lost '
                                     f'when the triple is replaced')
